@@ -316,6 +316,16 @@ pub fn run(out: &mut Out, tier: &str, seed: u64, prop: &str) {
                     format!("p w1 {}", hex(&format!("implementation_version == '{l1b}' or python_full_version < '{l1b}'"))),
                     format!("p w2 {}", hex(&format!("python_full_version in '{l1b} {l2}.0'"))),
                 ]);
+                // restriction of markers that share nodes with the queries, under OTHER extras sets (a memo keyed by
+                // the node alone would leak the earlier answer)
+                warmups.push(vec![
+                    format!("p w0 {}", hex(&format!("platform_machine == 'w' and extra == 'dev'"))),
+                    "sx w1 w0 646f6373".into(),                      // [docs]
+                    format!("p w2 {}", hex(&format!("python_full_version == '{l1}.*' and extra == 'dev'"))),
+                    "sx w3 w2 74657374,646f6373".into(),             // [test, docs]
+                    format!("p w4 {}", hex(&format!("(python_full_version >= '{l1}' and (python_version < '{l2}' or os_name == '{s1}')) or (python_full_version == '{l1}.*' and extra == 'dev')"))),
+                    "sx w5 w4 78".into(),                            // [x]
+                ]);
                 // the same work in the opposite order
                 let mut rev = script_for(&q, &[]);
                 rev.reverse();
